@@ -11,14 +11,14 @@ Definition res_ok (r : res) : bool := match r with ROk => true | _ => false end.
 (* single-request data operations *)
 Definition single_data_op (o : op) : bool :=
   match o with
-  | OPut _ _ _ _ _ | OGet _ _ | OUpdate _ _ _ _ _ _ _ | ODelete _ _ _ _ _ _
-  | OQuery _ _ _ _ _ _ _ _ _ | OScan _ _ _ _ _ _ _ | OBatchGet _ | OTransact => true
+  | OPut _ _ _ _ _ | OGet _ _ _ _ | OUpdate _ _ _ _ _ _ _ | ODelete _ _ _ _ _ _
+  | OQuery _ _ _ _ _ _ _ _ _ | OScan _ _ _ _ _ _ _ | OBatchGet _ _ | OTransact => true
   | _ => false
   end.
 
 Definition read_op (o : op) : bool :=
   match o with
-  | OGet _ _ | OQuery _ _ _ _ _ _ _ _ _ | OScan _ _ _ _ _ _ _ | OBatchGet _ | OTransact | ODescribeTable _ => true
+  | OGet _ _ _ _ | OQuery _ _ _ _ _ _ _ _ _ | OScan _ _ _ _ _ _ _ | OBatchGet _ _ | OTransact | ODescribeTable _ => true
   | _ => false
   end.
 
@@ -97,13 +97,13 @@ Qed.
 (* ---- C15: while a failure is active every single data operation fails with it and changes nothing ---- *)
 Definition name_of (o : op) : str :=
   match o with
-  | OPut t _ _ _ _ | OGet t _ | OUpdate t _ _ _ _ _ _ | ODelete t _ _ _ _ _ => t
+  | OPut t _ _ _ _ | OGet t _ _ _ | OUpdate t _ _ _ _ _ _ | ODelete t _ _ _ _ _ => t
   | _ => bs "xxx"
   end.
 
 Theorem failure_blocks c o f :
   c_failure c = Some f -> single_data_op o = true -> v1_name_ok flavour (name_of o) = true ->
-  (match o with OBatchGet _ => flavour = V2 | _ => True end) ->
+  (match o with OBatchGet _ _ => flavour = V2 | _ => True end) ->
   fst (step c o) = c /\
   o_res (snd (step c o)) = RErr (match o with OTransact => ForcedFailure | _ => failure_err f end).
 Proof.
@@ -132,7 +132,7 @@ Qed.
 Theorem failure_erasable c f ops :
   c_failure c = None ->
   Forall (fun o => single_data_op o = true /\ v1_name_ok flavour (name_of o) = true /\
-                   match o with OBatchGet _ => flavour = V2 | _ => True end) ops ->
+                   match o with OBatchGet _ _ => flavour = V2 | _ => True end) ops ->
   set_failure (fold_left (fun c o => fst (step c o)) ops (set_failure c (Some f))) None = c.
 Proof.
   intros Hn Hall.
@@ -156,7 +156,7 @@ Theorem table_frame c o tn n :
   CInv (fun _ => True) c ->
   (match o with
    | OPut t _ _ _ _ | OUpdate t _ _ _ _ _ _ | ODelete t _ _ _ _ _ | OClearTable t | ODeleteTable t
-   | OUpdateTable t _ _ _ | OAddIndex t _ _ _ | OGet t _ | OQuery t _ _ _ _ _ _ _ _ | OScan t _ _ _ _ _ _ | ODescribeTable t => t = tn
+   | OUpdateTable t _ _ _ | OAddIndex t _ _ _ | OGet t _ _ _ | OQuery t _ _ _ _ _ _ _ _ | OScan t _ _ _ _ _ _ | ODescribeTable t => t = tn
    | _ => False
    end) ->
   n <> tn -> lookup n (c_tables (fst (step c o))) = lookup n (c_tables c).
